@@ -266,6 +266,40 @@ func c15Run(w *W) {
 			}
 		})
 	}
+	// the quoted string as the word of a parameter expansion that is itself NOT quoted: ${u:-'s'}, ${u-"s"}, ${a:+\s}
+	genRunes(c15Alpha, 3, func(rs []rune) {
+		if !w.Mine() || w.TimeUp() {
+			return
+		}
+		s := string(rs)
+		w.Count("states", 1)
+		for _, style := range []string{"single", "double", "backslash"} {
+			q, ok := c15Quote(s, style)
+			if !ok {
+				continue
+			}
+			for _, host := range []string{"${u:-%s}", "${u-%s}", "${a:+%s}"} {
+				src := fmt.Sprintf(host, q)
+				w.Announce(src)
+				word, err := c13Parse(src)
+				if err != nil {
+					w.Violation("", c15Case{S: s, Style: style, Src: src}, fmt.Sprintf("the parser rejects the word %s: %v", src, err))
+					continue
+				}
+				for _, m := range c15Modes {
+					for _, e := range []string{"ifs", "noglob-nounset"} {
+						c := c15Case{S: s, Style: style, Src: src, Mode: uint(m), Env: e}
+						w.Count("evaluations", 1)
+						w.Count("nested_in_parameter_expansion", 1)
+						w.Count("traces_validated_against_impl", 1)
+						if d := c15Judge(c, word); d != "" {
+							w.Violation("", c, d)
+						}
+					}
+				}
+			}
+		}
+	})
 	genRunes(c15Alpha, n, func(rs []rune) {
 		if !w.Mine() || w.TimeUp() {
 			return
@@ -307,7 +341,7 @@ func init() {
 		id:    "C15",
 		level: "model_checking",
 		rule: "every string ≤ 4 (quick) / 5 (thorough) over {a * ? [ ] \\ ' \" $ ` ~ space newline # = é / .} × {single, double, backslash-each, mixed} quoting × 6 ExpModes × 4 environments " +
-			"(IFS made of the alphabet, HOME set, positional parameters set, working directory with files named like the strings); non-trivial = the string contains a character that is special to some expansion",
+			"(IFS made of the alphabet, HOME set, positional parameters set, working directory with files named like the strings); the strings ≤ 3 also as the quoted word of ${u:-…}, ${u-…} (u unset) and ${a:+…} (a set) outside double quotes; non-trivial = the string contains a character that is special to some expansion",
 		assume: []string{"backslash-newline is excluded from the backslash style (POSIX removes it, it is not a quoted newline)", "Pattern mode is judged with the pattern model of C12"},
 		run:    c15Run,
 		replay: func(raw json.RawMessage) error {
